@@ -57,6 +57,36 @@ def gen_cfg(rng, i, quick):
     return c
 
 
+def machine_cfgs(seed, quick):
+    """configurations whose machine parameters are NOT at their defaults (own PRNG: the base stream keeps its draws):
+    the product {BendingRadius not given, three explicit radii} x {alpha0 default, another alpha0, two explicit synchrotron
+    frequencies}, each with a CSR wake so that the Meter/Second/Turn/Volt factors AND the absolute wake strength are
+    compared with what /Info/Parameters implies.  An explicit radius changes V0, hence V_eff, f_s (alpha0 route), the
+    natural bunch length and dt by 1e-4 .. 3e-2 - far above the 1e-6 the unit oracles allow."""
+    import random
+    rng = random.Random(seed * 7919 + 101)
+    out = []
+    routes = [dict(), dict(alpha0=2e-3), dict(fs=30e3), dict(fs=61e3)]
+    bends = [None, 0.75, 5.559, 8.0]
+    combos = [(b, r) for b in bends for r in routes]
+    if quick:
+        # every explicit radius with every route; the default radius with two of them
+        combos = [(b, r) for (b, r) in combos if b is not None] + [(None, routes[1]), (None, routes[3])]
+    for i, (b, r) in enumerate(combos):
+        n = rng.choice([16, 20, 24])
+        cur = rng.choice([[1e-3], [1e-3], [1e-3, 5e-4], [4e-4, 0, 1.2e-3]])
+        kw = dict(n=n, steps=rng.choice([8, 10, 16]), rot=rng.choice(["0.5", "1"]), outstep=rng.choice([2, 3, 5]), save=rng.choice([1, 2]),
+                  currents=cur, shiftx=rng.choice([0, 1]), shifty=rng.choice([0, -2]), renorm=rng.choice([0, -1]),
+                  padding=rng.choice([2, 4]), gap=rng.choice([0.03, -0.03]), bend=b)
+        kw.update(r)
+        if rng.random() < 0.3:
+            kw["vrf"] = rng.choice([6e5, 1.4e6])       # moderate RF voltage: V0/V_RF larger, the radius matters more
+        c = hc.Cfg(**kw)
+        c.cid, c.imp = "m%d" % i, "machine"
+        out.append(c)
+    return out
+
+
 def close(a, b, tol):
     return abs(a - b) <= tol
 
@@ -324,8 +354,11 @@ class FileCheck:
             return
         buckets = [int(b) for b in h.values("/Info/BucketNumbers")]
         sp = d["spacing_bins"] if len(c.currents) > 1 else 0
-        if any(b * sp + n > N for b in buckets):
-            return                      # padded buffer too short for the pattern: C17's finding, nothing to compare
+        # the transform length is the one the STORED impedance implies (twice its length).  main() sizes the wake
+        # impedance so that the whole train fits (C06_main_train_fits, C17); if the stored impedance is shorter than
+        # that, the only reading left is the cyclic one (positions modulo N) - evaluated like any other file, so a
+        # dataset that holds only part of the impedance in use shows up as a wake that is not this convolution
+        fits = all(b * sp + n <= N for b in buckets)
         scale = hc.f32(hc.f32(d["Ib"] * d["dt"] * hc.C_LIGHT / d["bl"] / (float(self.dp) * d["sE"] * d["E0"])) / N)
         cs = [math.cos(2 * math.pi * k / N) for k in range(N)]
         sn = [math.sin(2 * math.pi * k / N) for k in range(N)]
@@ -333,7 +366,7 @@ class FileCheck:
         if N > 2048:
             recs = [nrec - 1]
         for r in recs:
-            cells = [(buckets[b] * sp + x, prof[r * nb + b][x]) for b in range(nb) for x in range(n) if prof[r * nb + b][x] != 0]
+            cells = [((buckets[b] * sp + x) % N, prof[r * nb + b][x]) for b in range(nb) for x in range(n) if prof[r * nb + b][x] != 0]
             if not cells:
                 continue
             xr, xi = [0.0] * nh, [0.0] * nh
@@ -349,7 +382,7 @@ class FileCheck:
             exp, got = [], []
             for b in range(nb):
                 for x in range(0, n, step):
-                    i = buckets[b] * sp + x
+                    i = (buckets[b] * sp + x) % N
                     s = xr[0]
                     for j in range(1, nh):
                         k = (i * j) % N
@@ -362,10 +395,13 @@ class FileCheck:
             for e, g in zip(exp, got):
                 if abs(g - e) > 2e-3 * abs(e) + 3e-4 * mx:
                     self.bad("wake", "stored wake potential is not the convolution of the stored bunch profile with the stored impedance "
-                             "at the absolute scale implied by the stored parameters (record %d of %d)" % (r, nrec), observed=g, expected=e,
-                             final_record=(r == nrec - 1), multibunch=nb > 1)
+                             "at the absolute scale implied by the stored parameters (record %d of %d)%s" % (
+                                 r, nrec, "" if fits else "; the transform length 2*%d implied by the stored impedance cannot even hold "
+                                 "the bunch train (buckets %s, %d cells apart)" % (nh, buckets, sp)), observed=g, expected=e,
+                             final_record=(r == nrec - 1), multibunch=nb > 1, train_fits=fits)
                     break
             self.nontrivial = True
+            self.ctx.count("wake-record:%s" % ("several-buckets" if len(c.currents) > 1 else "one-bucket"))
 
     def nyquist(self, P_, S_, W):
         """estimate of the Nyquist bin of the spectrum from the stored profile and the last stored bins"""
@@ -390,8 +426,9 @@ def model_text(c, d):
     t = "sched %s.sched %s %s %d %s\n" % (c.cid, hc.zt(c.outstep), hc.zt(c.save), 1 if c.has_wake() else 0, hc.zt(stop))
     t += "dims %s.dims %s %s %s %s %s\n" % (c.cid, hc.zt(nb), hc.zt(n), hc.zt(nmax), hc.zt(imp), hc.zt(np_))
     t += "laststep %s.last %s %s\n" % (c.cid, qtok(Fraction(c.steps)), qtok(Fraction(float(c.rot))))
-    t += "axis %s.axz %s %s %s\n" % (c.cid, hc.zt(n), qtok(Fraction(12)), qtok(Fraction(hc.f32(c.shiftx))))
-    t += "axis %s.axe %s %s %s\n" % (c.cid, hc.zt(n), qtok(Fraction(12)), qtok(Fraction(hc.f32(c.shifty))))
+    pq = Fraction(hc.f32(c.pqsize)) if c.pqsize is not None else Fraction(12)
+    t += "axis %s.axz %s %s %s\n" % (c.cid, hc.zt(n), qtok(pq), qtok(Fraction(hc.f32(c.shiftx))))
+    t += "axis %s.axe %s %s %s\n" % (c.cid, hc.zt(n), qtok(pq), qtok(Fraction(hc.f32(c.shifty))))
     return t
 
 
@@ -417,6 +454,12 @@ def check_cfg(ctx, tg, c, dis, keep=None):
             return
         # a first derive to know the padded sizes (from the configuration as the program saw it)
         P = {k[1]: h.attr(k[0], k[1]) for k in h.attrs if k[0] == "/Info/Parameters"}
+        if "GridSize" not in P or "/Info/AxisValues_t" not in h.ds:
+            # the program returned 0 but gave up on its results file half way (an HDF5 error during set-up is caught
+            # in main() and turned into an abort): nothing in such a file describes the run
+            ctx.violation("impl-oracle", "the results file of a run that exited with status 0 is incomplete (no /Info/Parameters or no time axis)",
+                          case=c.replay(), observed=(so + se)[-600:], sig=dict(kind="h5", clause="run"))
+            return
         d = hc.derive(P, c.currents)
         m1 = hc.run_model(model_text(c, d))
         tags = {i: [hc.pz(t) for t in m1[c.cid + ".sched"]["tags"][i]] for i in range(16)}
@@ -456,7 +499,7 @@ def run(ctx):
               hc.Cfg(n=17, steps=8, rot="1", outstep=3, save=3, currents=[5e-4], gap=-0.03, renorm=-1, shiftx=1, shifty=1.5)]
     for i, c in enumerate(corpus):
         c.cid, c.imp = "c%d" % i, "corpus"
-    cases = corpus + [gen_cfg(ctx.rng, i, ctx.quick()) for i in range(ncfg)]
+    cases = corpus + [gen_cfg(ctx.rng, i, ctx.quick()) for i in range(ncfg)] + machine_cfgs(ctx.seed, ctx.quick())
     for c in cases:
         check_cfg(ctx, tg, c, dis)
     ctx.extra["correspondence_disagreements"] = len(dis)
@@ -473,7 +516,8 @@ def replay(ctx, rp):
     tg = ctx.build(want_binary=True, harness=("h5cat",))
     case = rp.get("case") or {}
     kw = {k: v for k, v in case.items() if k in ("n", "steps", "rot", "outstep", "save", "currents", "shiftx", "shifty", "gap",
-                                                "usecsr", "wallcond", "collimator", "renorm", "tracking", "padding", "cutoff", "extra", "zoom")}
+                                                "usecsr", "wallcond", "collimator", "renorm", "tracking", "padding", "cutoff", "extra", "zoom",
+                                                "bend", "alpha0", "fs", "vrf", "pqsize")}
     c = hc.Cfg(**kw)
     c.cid, c.imp = "replay", "replay"
     dis = []
